@@ -113,3 +113,8 @@ func Pointees[E any]() (*E, *E) {
 	}
 	return new(E), new(E)
 }
+
+// BytesOf copies n bytes starting at p.
+func BytesOf(p unsafe.Pointer, n uintptr) []byte {
+	return append([]byte(nil), unsafe.Slice((*byte)(p), n)...)
+}
